@@ -68,6 +68,7 @@ def module_state_findings(tree, modname, model=None):
 
 def check(repo, rep):
     cx = Ctx(repo)
+    rep.cx = cx
     # ---------------------------------------------------------------- (a) taint of per-run tokenizer state from an arbitrary earlier run
     d = feed(rep, repo, 'C20', 'general')
     ntaint = sum(1 for o in rep.obligations)
